@@ -210,6 +210,22 @@ def run(ctx):
         for _ in range(40):
             a = gs.string(n)[:n].ljust(n, b'\0') if rng.random() < 0.7 else bytes(rng.choice([0, 0, 65, 0x22, 0x5c, 1]) for _ in range(n))
             prim.append(('pca', 'pca ' + U.hx(a), a))
+    # char arrays through print_char_array -> flatcc_json_parser_char_array: full arrays whose LAST byte needs an escape, arrays with
+    # trailing / embedded NULs, escapes in every slot, multi-byte UTF-8 across the end
+    arrays = []
+    esc_bytes = [10, 9, 13, 8, 12, 0x22, 0x5c, 0, 1, 0x1f]
+    for n in (1, 2, 3, 5, 6, 7, 8, 16):
+        for e in esc_bytes:
+            arrays.append(bytes(b'abcdefghijklmnop'[:n - 1]) + bytes([e]))          # full, last byte escaped
+            arrays.append(bytes([e]) * n)                                            # every slot escaped
+            if n > 1: arrays.append(bytes([e]) + bytes(b'abcdefghijklmnop'[:n - 1]))
+        arrays += [b'a' * n, b'\0' * n, (b'ab' + b'\0' * n)[:n], ('é' * n).encode()[:n], bytes(rng.randint(0, 255) for _ in range(n))]
+    for _ in range(300 if T else 80):
+        n = rng.choice([1, 2, 4, 6, 9])
+        arrays.append(bytes(rng.choice([0, 0x22, 0x5c, 10, 65, 66, 0x7f, 0x80, 0xff, 1, 32]) for _ in range(n)))
+    for a in arrays:
+        for fl in (0, 8, 16):
+            prim.append(('carr', 'carr %d %s' % (fl, U.hx(a)), (fl, a)))
     for d in datas:
         for url in (0, 1):
             prim.append(('pb64', 'pb64 %d %s' % (url, U.hx(d)), (url, d)))
@@ -234,7 +250,20 @@ def run(ctx):
         for tail in (b'"', b'"x', b'', b'\\n"', b'" ,'):
             prim.append(('parse_b64', 'parse_b64 %d %d 0 %s' % (url, rng.choice([0, 2]), U.hx(b'"' + t + tail)), (url, t, tail)))
     ctx.log('codec primitives: %d requests' % len(prim))
-    mres = ctx.run_model('json', [l for _, l, _ in prim])
+    def model_line(klass, line, x):
+        return 'pca ' + U.hx(x[1]) if klass == 'carr' else line
+    mres = ctx.run_model('json', [model_line(k, l, x) for k, l, x in prim])
+    # second model step for carr: char_array on the model's own text
+    carr_idx = [i for i, (k, _, _) in enumerate(prim) if k == 'carr']
+    carr_m2 = ctx.run_model('json', ['char_array %d 0 0 %s %d' % (prim[i][2][0], mres[i], len(prim[i][2][1])) for i in carr_idx])
+    for i, m2 in zip(carr_idx, carr_m2):
+        f2 = m2.split()
+        # same shape as the harness reply: <text> <ret> <err> <errloc> <array, unwritten bytes shown as ee>
+        if len(f2) == 7:
+            arr = ('' if f2[6] == '-' else f2[6]); arr = arr + 'ee' * (len(prim[i][2][1]) - len(arr) // 2)
+            mres[i] = '%s %s %s %s %s' % (mres[i], f2[0], f2[1], f2[2], arr if arr else '-')
+        else:
+            mres[i] = mres[i] + ' ' + m2
     ctx.log('codec primitives: model done')
     ires = U.run_resilient(H, [l for _, l, _ in prim])
     ctx.log('codec primitives: implementation done')
@@ -250,6 +279,17 @@ def run(ctx):
             out = bytes.fromhex(b) if b != '-' else b''
             if U_valid_utf8(x) and not py_escape_ok(x, out):
                 ctx.violation('print-string-not-json', 'print_string(%r) = %r is not a JSON string with that value (python json)' % (x, out), replay); continue
+        if klass == 'carr':
+            fl, arr = x
+            bf = b.split()
+            if len(bf) == 5:
+                text = bytes.fromhex(bf[0])
+                stripped = arr.rstrip(b'\0')
+                if fl & 16 and stripped != arr:
+                    pass        # reject_array_underflow: the stripped NULs cannot come back (C05_char_array_underflow_flag); compared with the model below
+                elif int(bf[2]) != 0 or int(bf[1]) != len(text) or bytes.fromhex(bf[4] if bf[4] != '-' else '') != arr:
+                    ctx.violation('char-array-roundtrip', 'char array %r prints as %r and parses back (flags %d) as error %s, array %s: not the original (C05_char_array_roundtrip)' % (
+                        arr, text, fl, bf[2], bf[4]), replay); continue
         if klass == 'pb64':
             url, d = x
             want = b'"' + (base64.urlsafe_b64encode(d) if url else base64.b64encode(d)) + b'"'
@@ -319,13 +359,27 @@ def run(ctx):
     allpf = [x for x in range(16) if (x & 12) != 12]      # skip_default together with force_default is contradictory
     ndoc = 400 if T else 90
     for k in range(ndoc):
-        root = rng.choice(['Root'] * 6 + ['Leaf', 'Other', 'Sub', 'Rec', 'Pt', 'Fix'])
+        root = rng.choice(['Root'] * 6 + ['Leaf', 'Other', 'Sub', 'Rec', 'Pt', 'Fix', 'Fix', 'Nums', 'Nums'])
         utf8 = (k % 3 != 0)
         v, text = make(root, utf8, rng.choice([1, 2, 3]))
         pfs = allpf if k < (12 if T else 4) else [0, 1, 2, 4, 8] + rng.sample(allpf, 2)
         for pf in pfs:
             for indent in ([0, rng.choice([1, 2, 3, 4, 8])] if k % 10 else [0, 2, 17, 255]):
                 cases.append(('value-tree' + ('-utf8' if utf8 else '-bytes'), root, v, text, pf, indent, utf8))
+    # [char:N] members filled to all N bytes with a last byte that needs an escape; 64-bit integers on the digit-count grid
+    for name in (b'abcde\\n', b'abcde\\"', b'abcde\\\\', b'abcde\\t', b'abcde\\u0001', b'\\n\\n\\n\\n\\n\\n', b'abcdef', b'abcde', b''):
+        for pf in (0, 1, 4):
+            cases.append(('char-array-full', 'Fix', None, b'{"name":"' + name + b'","u":1}', pf, 0, True))
+            cases.append(('char-array-full', 'Root', None, b'{"fix":{"name":"' + name + b'"},"vfix":[{"name":"' + name + b'"},{"name":"x"}]}', pf, 2, True))
+    grid = [x for x in U._GRID]
+    for k in range(0, len(grid), 6):
+        ch = grid[k:k + 6]
+        lv = [x for x in ch if x < 2 ** 63] + [-x for x in ch if x <= 2 ** 63]
+        uv = [x for x in ch if x < 2 ** 64]
+        v = {'l': lv[0], 'u': uv[-1], 'vl': lv, 'vu': uv, 'big': {'l': lv[-1], 'u': uv[0]}, 'vbig': [{'l': a, 'u': abs(a)} for a in lv[:4]], 'i': 7, 'w': 4294967295}
+        text = U.render_root('Nums', v, U.Style(rng, strict=True))
+        for pf in (0, 2, 8):
+            cases.append(('int64-grid', 'Nums', v, text, pf, rng.choice([0, 2]), True))
     # sampled finite floats (C19 covers the float codecs exhaustively)
     for dv in (0.1, 1e-5, 1e21, 1e22, 123456789.0, 5e-324, 2.2250738585072014e-308, 1.7976931348623157e308, 0.30000000000000004, -1e-7, 4.35, 9007199254740993.0):
         for fv in (0.1, 16777216.0, 1e-10, 3.4028234663852886e38, 1.17549435e-38, -0.0):
@@ -381,6 +435,9 @@ def run(ctx):
                 j = json.loads(t1.decode('utf-8'))
             except Exception as e:
                 ctx.violation('strict-json', 'default (quoted) output is not accepted by python json.loads: %s' % e, replay); continue
+            bad = strict_number_violation(t1)
+            if bad is not None:
+                ctx.violation('strict-json-number', 'default (quoted) output contains the number token %r, which is not an RFC 8259 number' % bad, replay); continue
             if v is not None:
                 try:
                     cmp_value(root, v, j, pf, root)
@@ -398,7 +455,7 @@ def run(ctx):
                        'finite floats: bit exactness sampled here, decided by C19', 'enum / bit-flag symbol round trip, union and nested buffer printing are covered by observation only (not modelled)']
     ctx.finish_args = dict(
         rule='codecs: all 256 single bytes, controls/quotes/UTF-8/invalid UTF-8 strings, char arrays with trailing NULs, base64 data of every length 0..19 and block edges in both '
-             'alphabets and padding modes, decoder on printer output / python encodings / damaged text with destination limits; round trips: value trees for 7 root types x 16 printer '
+             'alphabets and padding modes, decoder on printer output / python encodings / damaged text with destination limits; round trips: value trees for 8 root types x 16 printer '
              'flag sets x indents (0..8, 17, 255) with parser force_add; sampled boundary floats',
         explanation='theorems of Properties_C05 re-checked; extracted codec models compared with /repo; python json/base64 as independent judges; print->parse->dump/reprint equality on generated code')
 
@@ -419,6 +476,20 @@ def negzero_default(root, v):
                 elif walk(ft, x[f]): return True
         return False
     return walk(root, v)
+
+
+_STR = re.compile(rb'"(?:\\.|[^"\\])*"', re.S)
+_NUMLIKE = re.compile(rb'[-+0-9.][-+0-9.eExXa-fA-F]*')
+_RFCNUM = re.compile(rb'-?(0|[1-9][0-9]*)(\.[0-9]+)?([eE][-+]?[0-9]+)?\Z')
+
+
+def strict_number_violation(text):
+    """first number-like token outside strings that is not an RFC 8259 number (leading zeros, '+', '.5', hex ...), or None"""
+    bare = _STR.sub(b'""', text)
+    for m in _NUMLIKE.finditer(bare):
+        tok = m.group(0)
+        if not _RFCNUM.match(tok): return tok
+    return None
 
 
 def U_valid_utf8(bs):
